@@ -58,3 +58,59 @@ Example C09_rejection_happens :
   let s := fst (run_ops [] init_st (firstn 4 d6_history)) in
   snd (exec_op [] s (ODbAdd 0 0 2)) = OutRaise EDatabaseValidation.
 Proof. vm_compute. reflexivity. Qed.
+
+(* ---- the invariant, by induction over arbitrary histories ---- *)
+From PyDBML Require Import ContainerInv.
+
+(* After ANY sequence of add_table / delete_table calls on tables of the heap — accepted or rejected, with
+   name, alias and content clashes — the table list and the name index describe the same set under the
+   tables' names, every member points back to the database, no table is listed twice.  (Rename-free:
+   renames are the refuted statement D6 above.  [it_good]: no table's alias equals its own full name — D36.) *)
+Theorem C09_table_invariant_all_histories :
+  forall d ops h db, InvT h d db -> Forall (fun op => is_table h (top_arg op)) ops ->
+    exists db', InvT (fold_left (tstep d) ops h) d db'.
+Proof. exact table_invariant_history. Qed.
+Print Assumptions C09_table_invariant_all_histories.
+
+(* base case / non-vacuity: a new Database satisfies it, whatever objects already exist *)
+Theorem C09_invariant_holds_initially :
+  forall h sq dq al, (forall t tb, h_table h t = Some tb -> NoDup (names_of tb)) ->
+    InvT (h ++ [ODatabase (mkDatabase [] [] [] [] [] [] None al sq dq)]) (length h) (mkDatabase [] [] [] [] [] [] None al sq dq).
+Proof. exact fresh_database_invariant. Qed.
+Print Assumptions C09_invariant_holds_initially.
+
+(* under the invariant, delete_table is either rejected with the validation error, leaving everything as it
+   was, or succeeds: no KeyError, no half-done removal *)
+Theorem C09_delete_table_all_or_nothing :
+  forall h d db o t, InvT h d db -> h_table h o = Some t ->
+    db_delete_table d o h = (h, Raise EDatabaseValidation)
+    \/ exists n p ptb, nth_error (d_tables db) n = Some p /\ h_table h p = Some ptb /\ table_eqb h o p = true /\
+         db_delete_table d o h = (del_heap h d p (del_db db n ptb) ptb, Ok p).
+Proof. exact delete_table_total_under_invariant. Qed.
+Print Assumptions C09_delete_table_all_or_nothing.
+
+(* the removed table points to nothing and is no longer listed *)
+Theorem C09_removed_table_is_detached :
+  forall h d db n p ptb, InvT h d db -> nth_error (d_tables db) n = Some p -> h_table h p = Some ptb ->
+    let db' := del_db db n ptb in let h' := del_heap h d p db' ptb in
+    InvT h' d db' /\ h_table h' p = Some (set_t_database None ptb) /\ ~ In p (d_tables db').
+Proof. exact delete_table_preserves. Qed.
+Print Assumptions C09_removed_table_is_detached.
+
+(* the side condition [it_good] is necessary (defect D36): a table whose alias equals its own full name
+   can be added but not deleted *)
+Definition d36_history : list op :=
+  [ ONewDatabase 0 1 false;
+    ONewColumn (Some (s2l "id")) (SVStr (s2l "int")) false false false false SVNone SVNone None [];
+    ONewTable (Some (s2l "t")) (Some pub) (Some (s2l "public.t")) [1] [] SVNone None None false [];
+    ODbAdd 0 0 2 ].
+Theorem C09_atomic_full_refuted_D36 : ~ C09_atomic_full.
+Proof.
+  intro H.
+  pose (s := fst (run_ops [] init_st d36_history)).
+  specialize (H [] s (ODbDelete 0 0 2) (fst (exec_op [] s (ODbDelete 0 0 2))) EKeyError eq_refl).
+  assert (E : exec_op [] s (ODbDelete 0 0 2) = (fst (exec_op [] s (ODbDelete 0 0 2)), OutRaise EKeyError))
+    by (vm_compute; reflexivity).
+  specialize (H E). vm_compute in H. discriminate H.
+Qed.
+Print Assumptions C09_atomic_full_refuted_D36.
